@@ -703,11 +703,40 @@ fn case_history(case: &str) -> Option<Fail> {
             let nv = env.not(v.clone());
             (t2, f, env.and(v, nv))
         });
-        return match r {
-            Err(pn) => Some(Fail { case: case.into(), expected: "leaves stay available after clean".into(), actual: pn }),
+        match r {
+            Err(pn) => return Some(Fail { case: case.into(), expected: "leaves stay available after clean".into(), actual: pn }),
             Ok((t2, f, z)) => {
                 if *t2 != BDD::True || *f != BDD::False || *z != BDD::False {
-                    Some(Fail { case: case.into(), expected: "True / False / False".into(), actual: format!("{} {} {}", show(&t2), show(&f), show(&z)) })
+                    return Some(Fail { case: case.into(), expected: "True / False / False".into(), actual: format!("{} {} {}", show(&t2), show(&f), show(&z)) });
+                }
+            }
+        }
+        // the same with NO other diagram of the environment alive: a constant result is cleaned repeatedly, then the
+        // environment is used again and must behave like a fresh one (both leaves still in the table)
+        let env2 = E::new();
+        let r2 = quiet(|| {
+            let mut c = env2.and(env2.var(ids[0]), env2.not(env2.var(ids[0])));
+            for _ in 0..4 {
+                c = env2.clean(c);
+            }
+            let leaves = env2.nodes.borrow().contains_key(&BDD::True) && env2.nodes.borrow().contains_key(&BDD::False);
+            let t = env2.not(c.clone());
+            let o = env2.or(env2.var(ids[1]), env2.var(ids[2]));
+            let e3 = E::new();
+            let t3 = e3.clean(e3.mk_const(true));
+            let size3 = e3.size();
+            let v3 = e3.var(ids[0]);
+            let nn = e3.not(e3.not(v3.clone()));
+            (c, leaves, t, o, t3, size3, *nn == *v3)
+        });
+        return match r2 {
+            Err(pn) => Some(Fail { case: case.into(), expected: "the environment stays usable after cleaning a constant with nothing else alive".into(), actual: pn }),
+            Ok((c, leaves, t, o, t3, size3, same)) => {
+                let fresh = E::new();
+                let want_o = fresh.or(fresh.var(ids[1]), fresh.var(ids[2]));
+                if *c != BDD::False || !leaves || *t != BDD::True || *o != *want_o || *t3 != BDD::True || size3 != 2 || !same {
+                    Some(Fail { case: case.into(), expected: "False, both leaves in the table, True, the fresh-environment diagram, True, 2 entries, not(not v) = v".into(),
+                        actual: format!("{} leaves={leaves} {} {} {} size={size3} {same}", show(&c), show(&t), show(&o), show(&t3)) })
                 } else {
                     None
                 }
